@@ -49,24 +49,30 @@ func (w *WaitGroup) InstanceVariables() *InstanceVariables {
 
 func (w *WaitGroup) Add(n int) {
 	w.Native.Add(n)
+	vhook("wg.add.ok", w, n)
 }
 
 func (w *WaitGroup) Remove(n int) {
 	for range n {
 		w.Native.Done()
 	}
+	vhook("wg.remove.ok", w, n)
 }
 
 func (w *WaitGroup) Start() {
 	w.Native.Add(1)
+	vhook("wg.start.ok", w)
 }
 
 func (w *WaitGroup) End() {
 	w.Native.Done()
+	vhook("wg.end.ok", w)
 }
 
 func (w *WaitGroup) Wait() {
+	vhook("wg.wait.try", w)
 	w.Native.Wait()
+	vhook("wg.wait.ok", w)
 }
 
 func initWaitGroup() {
